@@ -202,7 +202,7 @@ Definition spec_procs (ps : list proc) (cb : cbkind) (start : Q) (timeout : opti
     match exc with
     | Some _ => false
     | None =>
-      spec_partition (length ps) (match cb with CbOk => true | _ => false end) gone alive rc cbs
+      spec_partition (length ps) (match cb with CbOk _ => true | _ => false end) gone alive rc cbs
       && forallb (rc_ok ps ret) rc
       && match timeout with Some t => Qlt_bool ret (start + t + cap) | None => true end
     end
